@@ -8,6 +8,7 @@ INDICATOR_ATOMS = ["-", "- ", "?", "? ", ":", ": ", ",", "[", "]", "{", "}", "#"
                    "|", "|-", ">+", "'", "\"", "%", "%YAML", "%TAG", "@", "`", "---", "...", "\t", " ", "  ", "\n", "\r\n", "\r",
                    "\\x85", "\\u2028", "\\", "\\\n", "<<", "a", "a: b", "\0", "\ufeff", "\x07", "\ud7ff", "\U0010ffff", "\x7f", "\x85",
                    "\u2028", "\u2029", "\xa0", "\ufffe", "\uffff"]
+INDICATOR_ATOMS += ["\u200b", "\u200c", "\u200d", "\u2060", "\u0301", "\u00ad", "\u202e", "\uff21", "a\u200bb: c", "# \u200d c"]
 INDICATOR_ATOMS = [a for a in INDICATOR_ATOMS if not a.startswith("\\x") and not a.startswith("\\u")]
 
 
